@@ -30,7 +30,8 @@ RULE = ('(a) terrains built to drive the status tree through its hard cases — 
         'extracted CONCRETE tree model (Tree.v): new root and freed row of every insert/delete, the float returned by every '
         'query, and snapshots of the complete node arrays (every row ever handed out plus the dummy root and the NIL row: '
         'key, payload, cached maximum, colour, left/right/parent) after every update of short sequences and at ~48 evenly '
-        'spaced points of long ones.')
+        'spaced points of long ones; at the same points the real arrays are checked for a cached maximum above its subtree '
+        'maximum (oracle).')
 TRUSTED = [
     'the red-black tree of viewshed.py:93-732 is modelled line by line in coq/C05/Tree.v (finite map row id -> node record; '
     'NIL_ID = -1 is an ordinary row whose colour / cached maximum are read and whose parent field is written, as in the '
@@ -40,17 +41,29 @@ TRUSTED = [
     '_rb_insert_fixup with a NIL grandparent, _delete_from_tree emptying the tree); the print() in phase 2 of the query is '
     'not modelled; _tree_successor is modelled by the only branch its call site can reach (_tree_minimum of the right child); '
     'row ids come from the idle stack of _viewshed_cpu_sweep modelled as a list',
-    'PROVED about that concrete model (PropsTree.v, closed under the global context): both rotations and the whole '
-    '_rb_insert_fixup loop preserve the tree invariant (links and parent pointers encode a binary tree, distinct ids, every '
-    'cached maximum = maximum of min3 over its subtree, NIL cached maximum = SMALLEST_GRAD), the in-order sequence and all '
-    'keys/payloads. NOT proved for all inputs: the descent/attach and upward maximum propagation of _insert_into_tree, '
-    '_delete_from_tree (successor copy, its three maximum-repair loops, _rb_delete_fixup), the two-phase query, i.e. the '
-    'composite statement that the concrete tree refines the abstract status structure of Sweep.v (Props '
-    'tree_refines_status_full_statement / rbtree_refines_status_statement, unclaimed) — covered by the bounded theorem '
+    'PROVED about that concrete model (PropsTree.v, all closed under the global context, all sizes / all inputs, partial '
+    'correctness = conditional on the model returning, i.e. no out-of-bounds guard and fuel not exhausted): rotations and '
+    'the whole _rb_insert_fixup loop preserve the tree invariant (links + parent pointers encode a binary tree, distinct '
+    'ids, every cached maximum = maximum of min3 over its subtree) and the in-order sequence; _insert_into_tree (descent, '
+    'attach, upward maximum propagation, fix-up) refines st_insert: abstraction (in-order key/payload list) of the result '
+    '= old abstraction with the new pair at the sorted position, invariant preserved; the query on a tree satisfying the '
+    'invariant returns a maximum m with (not m > g) = visible_q of the abstraction; _rb_delete_fixup and _delete_from_tree '
+    '(successor copy included) preserve links / in-order sequence / key order and refine del_key on the abstraction. '
+    'REFUTED (Example C05_tree_delete_max_not_preserved, and observed on the real arrays): _delete_from_tree does NOT '
+    're-establish "cached maximum = subtree maximum" — the skip conditions of the loop at viewshed.py:665-697 leave '
+    'ancestors\' maxima too LOW; harmless for the result because phase 2 of the query walks every nearer node (only the '
+    'shortcut is lost); the harmful direction (cached maximum ABOVE every subtree value) was never observed (checked on '
+    'the real arrays on every run, in the bounded theorem through the queries) but its impossibility is NOT proved. So '
+    'the composite statement "the concrete tree refines the abstract status structure for every operation sequence" '
+    '(Props tree_refines_status_full_statement / rbtree_refines_status_statement) stays unclaimed: after a delete the '
+    'query theorem\'s premise (two-sided maximum invariant) is not available; covered by the bounded theorem '
     'C05_bounded_tree_refines_small and by correspondence (real tree vs concrete model row by row; real tree vs abstract '
     'structure)',
     'premises of the tree theorems: > on gradients is a strict weak order on the whole gradient type (asymmetric, '
-    '"not >" transitive) — true for binary64 off NaN; SMALLEST_GRAD <= min3 of every node is part of the invariant',
+    '"not >" transitive) and < on keys is a strict weak order (irreflexive, transitive, negatively transitive) — true for '
+    'binary64 off NaN; SMALLEST_GRAD <= min3 of every node and <= the query gradient; for the query the phase-1 premise '
+    '(a nearer node whose min3 exceeds g also has its interpolated gradient exceed g — the code consults cached maxima only '
+    'to the left of the search path); == on gradients (used only by the maximum-repair loops of delete) is unconstrained',
     'the query is modelled as a decision (exists a nearer node with min3 > g, or with interpolated gradient > g) instead of '
     'the running maximum started at SMALLEST_GRAD=-1e22 and the final test max <= g; identical for NaN-free gradients '
     '>= -1e22 (all gradients are atan values). Phase 1 of the code consults only the nodes on the left of the search path '
@@ -76,13 +89,16 @@ ASSUMPTIONS = [
 ]
 PARTIAL = [
     'tree_refines_status_full_statement / rbtree_refines_status_statement (the concrete red-black tree model of Tree.v '
-    'implements the abstract status structure for every operation sequence: insert / delete / query commute with the '
-    'in-order abstraction): stated in PropsTree.v / Props.v, unclaimed. Proved parts: C05_tree_left_rotate_preserves, '
-    'C05_tree_right_rotate_preserves, C05_tree_insert_fixup_preserves (partial correctness: conditional on the model '
-    'returning Some, i.e. no out-of-bounds guard and enough fuel). Bounded part: C05_bounded_tree_refines_small '
-    '(vm_compute, integer instance: every sequence of <= 6 inserts/deletes, keys 1..5, gradients {0,1}; in-order sequence '
-    '= sorted abstract status and 14 queries after every prefix). Not proved for all inputs: BST descent + attach and '
-    'ins_up of insert, all of delete, the query, fuel sufficiency, red-black balance (not needed for correctness)',
+    'implements the abstract status structure for EVERY operation sequence): stated in PropsTree.v / Props.v, unclaimed. '
+    'Proved per operation (PropsTree.v): C05_tree_left_rotate_preserves, C05_tree_right_rotate_preserves, '
+    'C05_tree_insert_fixup_preserves, C05_tree_insert_refines, C05_tree_query_refines, C05_tree_delete_fixup_preserves, '
+    'C05_tree_delete_refines — all partial correctness (conditional on the model returning: no out-of-bounds guard, fuel not '
+    'exhausted; fuel sufficiency and red-black balance are not proved). The gap that prevents composing them over sequences '
+    'with deletes: C05_tree_delete_refines covers links / order / abstraction only, because the two-sided cached-maximum '
+    'invariant is false after _delete_from_tree (Example C05_tree_delete_max_not_preserved); what the query really needs is '
+    'the one-sided invariant (no cached maximum above its subtree maximum), whose preservation by delete is NOT proved. '
+    'Bounded: C05_bounded_tree_refines_small (vm_compute, integer instance: every sequence of <= 6 inserts/deletes, keys '
+    '1..5, gradients {0,1}; in-order sequence = sorted abstract status and 14 queries after every prefix)',
     'C05_sweep_eq_spec is conditional on the sweep not leaving the modelled domain (result inr _: no duplicate active key, '
     'no delete of an absent key); that this never happens for real grids is checked per case by the extracted model '
     '(DUPKEY / NOTFOUND counters), not proved',
@@ -97,19 +113,24 @@ LEVEL_TEXT = ('Proved for all inputs (any grid size, any terrain/observer/height
               'sweep = O(n^2) reference (C05_sweep_eq_spec_full unconditional on interpolation facts; C05_sweep_eq_spec with '
               'the clean property statement under phase1_sound/own_span), that the stable insertion sort yields an '
               'inversion-free permutation under a strict weak order, and the 0..180 / level=90 range of the vertical angle '
-              'over the reals. The red-black tree itself is now inside the model (coq/C05/Tree.v, line-by-line): proved for all '
-              'sizes/inputs that _left_rotate, _right_rotate and the whole _rb_insert_fixup loop preserve the tree invariant '
-              '(well-formed links, every cached maximum = subtree maximum), the in-order sequence and all keys/payloads '
-              '(C05_tree_left_rotate_preserves, C05_tree_right_rotate_preserves, C05_tree_insert_fixup_preserves). Bounded '
+              'over the reals. The red-black tree itself is inside the model (coq/C05/Tree.v, line by line) and proved, for all '
+              'sizes and inputs (conditional on the model returning): rotations and insert fix-up preserve the tree invariant '
+              'incl. every cached maximum (C05_tree_left/right_rotate_preserves, C05_tree_insert_fixup_preserves); '
+              '_insert_into_tree refines st_insert on the in-order abstraction and preserves the invariant '
+              '(C05_tree_insert_refines); the query on a tree with the invariant = the abstract two-phase query '
+              '(C05_tree_query_refines); _rb_delete_fixup and _delete_from_tree refine del_key on links / order / abstraction '
+              '(C05_tree_delete_fixup_preserves, C05_tree_delete_refines). Refuted for the code as written: delete '
+              're-establishes the cached maxima (they can end up too low — harmless, witness in PropsTree.v). Bounded '
               '(vm_compute; every sequence of <= 6 inserts/deletes over keys 1..5, gradients {0,1}, 14 queries after every '
               'prefix): concrete tree = abstract status structure (C05_bounded_tree_refines_small). Not proved for all inputs: '
-              'insert descent/attach, delete, query of the concrete tree (full refinement statement unclaimed) and float '
-              'rounding facts. Correspondence: viewshed() vs extracted model, visible mask and angles bit-exact; the jitted '
-              'tree functions vs the concrete tree model (node arrays row by row, query floats) and vs the abstract structure; '
-              'oracle: independent Python reference.')
+              'that no cached maximum is ever too high after deletes, hence the composite refinement over operation sequences '
+              '(unclaimed), fuel sufficiency, float rounding facts. Correspondence: viewshed() vs extracted model, visible '
+              'mask and angles bit-exact; the jitted tree functions vs the concrete tree model (node arrays row by row, query '
+              'floats) and vs the abstract structure; oracles: independent Python reference, cached-maximum check on the '
+              'real arrays.')
 LEVEL_NOTE = ('Trusted: Coq kernel, extraction (ExtrOcamlBasic + ExtrOCamlFloats), the OCaml driver handing Stdlib.atan to '
-              'the model, the refinement concrete red-black tree model -> abstract status structure (rotations and insert '
-              'fix-up proved, the rest bounded + stress-tested), the line-by-line reading of the jitted tree code as Tree.v '
+              'the model, the composition of the per-operation tree theorems over sequences with deletes (one-sided '
+              'maximum invariant after delete: bounded + stress-tested, not proved), the line-by-line reading of the jitted tree code as Tree.v '
               '(compared row by row on every run), float order laws as premises, the Python harness and oracle.')
 
 PI = math.pi
@@ -459,6 +480,27 @@ class RealTree(object):
     def visible(self, key, ang, grad):
         return bool(self.max_grad(key, ang, grad) <= grad)
 
+    def stale_high(self):
+        """a node whose cached maximum exceeds the min-gradient of every node of its subtree (the phase-1 shortcut of
+        the query would then hide a visible cell): (row, key, cached, true subtree maximum) or None.  The converse
+        (cached maximum BELOW the subtree maximum) does occur after _delete_from_tree and is harmless."""
+        bad = []
+
+        def rec(i):
+            if i == -1:
+                return None
+            v = self.vals[i]
+            m = min(v[1], v[2], v[3])
+            for ch in (self.nodes[i][1], self.nodes[i][2]):
+                r = rec(int(ch))
+                if r is not None and r > m:
+                    m = r
+            if v[7] > m and not bad:
+                bad.append((i, float(v[0]), float(v[7]), float(m)))
+            return m
+        rec(int(self.root))
+        return bad[0] if bad else None
+
     def snapshot(self):
         """every row of the two arrays that has ever been written: NIL (last row, id -1), the dummy root and the
         rows handed out by the idle stack — (id, key, max, red, left, right, parent, g0, g1, g2, a0, a1, a2)"""
@@ -494,6 +536,7 @@ def run_tree_real(ops):
     snaps = snapshot_points(ops)
     res = []
     detail = []
+    stale = None
     for j, o in enumerate(ops):
         try:
             if o[0] == 'I':
@@ -511,7 +554,11 @@ def run_tree_real(ops):
             detail.append(('ERR',))
         if j in snaps:
             detail.append(('S', t.snapshot()))
-    return res, detail
+            if stale is None and o[0] in ('I', 'D'):
+                sh = t.stale_high()
+                if sh is not None:
+                    stale = (j,) + sh
+    return res, detail, stale
 
 
 def run_tree_oracle(ops):
@@ -760,6 +807,12 @@ def check_tree_case(ctx, case, real):
         ctx.violation('correspondence', 'cannot drive the status tree of viewshed.py directly: %s' % real, dict(case, ops=[]))
         return False
     exp = run_tree_oracle(ops)
+    if real[2] is not None:
+        j, row, key, cached, true = real[2]
+        ctx.violation('oracle', 'status tree: after op #%d %r (%s) row %d (key %r) caches the maximum %r but no node of '
+                      'its subtree has a min-gradient above %r: the phase-1 shortcut of the query can hide a visible cell'
+                      % (j, ops[j], case['pattern'], row, key, cached, true), dict(case, op_index=j))
+        return False
     for j, (a, b) in enumerate(zip(real[0], exp)):
         if a != b:
             ctx.violation('oracle', 'status tree: after %d operations (%s) the real tree answers %s for op %r, brute force '
@@ -785,7 +838,7 @@ def compare_tree_model(ctx, pending):
         return
     outs = ctx.model.run([tree_line([tuple(o) for o in c['ops']]) for c, _ in pending])
     couts = ctx.model.run([ctree_line([tuple(o) for o in c['ops']]) for c, _ in pending])
-    for (case, (real, detail)), mo, co in zip(pending, outs, couts):
+    for (case, (real, detail, _stale)), mo, co in zip(pending, outs, couts):
         ctx.traces += 1
         # (i) the real tree vs the CONCRETE tree model of coq/C05/Tree.v: roots, freed rows, the floats returned by
         # the query and the complete node arrays (keys, payloads, cached maxima, colours, links, NIL row)
